@@ -208,6 +208,7 @@ def run_direct(name, ops):
         return [("cmd:%s:cannot-instantiate:%s" % (name, type(err).__name__), "%s() raised %r" % (name, err))]
     m = Model(norm(obj.relinquishDefault))
     kind = dt.__name__
+    pv_open = False
     for i, op in enumerate(ops):
         before = direct_snapshot(obj, dt)
         try:
@@ -229,10 +230,20 @@ def run_direct(name, ops):
                     return [("cmd:%s:direct:slot0-accepted" % kind, "%s: write to priorityArray[0] accepted" % name)]
                 except ExecutionError:
                     pass
+            elif op[0] == "rd":
+                # the local application gives the object another relinquish default (it takes effect when the value is next derived)
+                obj.WriteProperty("relinquishDefault", to_lib(dt, vals[op[1]]), direct=True)
+                m.default = norm(vals[op[1]])
+                if all(x is None for x in m.slots[1:]):
+                    pv_open = True
         except Exception as err:
             return [("cmd:%s:direct:raised:%s" % (kind, type(err).__name__), "%s history %r: step %r raised %r" % (name, ops[:i + 1], op, err))]
+        if op[0] in ("w", "r"):
+            pv_open = False
         got = direct_snapshot(obj, dt)
         want = m.snapshot()
+        if pv_open:
+            want = (got[0], want[1])
         if op[0] in ("bad", "slot0") and got != before:
             return [("cmd:%s:direct:refused-command-changed-state" % kind, "%s history %r: %r -> %r" % (name, ops[:i + 1], before, got))]
         if got[0] != want[0]:
@@ -446,7 +457,7 @@ def ops_nontrivial(ops):
             if op[1] in occ:
                 nt = True
             occ.discard(op[1])
-        elif op[0] in ("bad", "slot0"):
+        elif op[0] in ("bad", "slot0", "rd"):
             nt = True
     return nt
 
@@ -516,6 +527,13 @@ def run(spec, ctx):
             for b in bad:
                 ops = [alpha[seq[0]], b, alpha[seq[1]]]
                 ctx.check(dict(k="direct", cls=name, ops=ops))
+        # a relinquish default changed by the local application, before / between / after commands
+        for seq in itertools.product(range(len(alpha)), repeat=2):
+            for vi in (0, 1, 2):
+                a, b = alpha[seq[0]], alpha[seq[1]]
+                rel = [["r", p_] for p_ in PRIOS]
+                for ops in ([["rd", vi], a, b] + rel, [a, ["rd", vi], b] + rel, [a, b, ["rd", vi]] + rel + [["w", PRIOS[1], vi], ["r", PRIOS[1]]]):
+                    ctx.check(dict(k="direct", cls=name, ops=ops))
         # the same short histories over the wire
         for seq in itertools.product(range(len(alpha)), repeat=2):
             ctx.check(dict(k="wire", cls=name, ops=[alpha[i] for i in seq]))
@@ -529,6 +547,8 @@ def run(spec, ctx):
                        st.tuples(st.just("r"), st.integers(1, 16)).map(list),
                        st.tuples(st.just("bad"), st.sampled_from([0, 17, 255, -1, 100]), st.integers(0, 2)).map(list),
                        st.tuples(st.just("slot0"), st.integers(0, 2)).map(list))
+        if kind == "random":
+            op = st.one_of(op, op, op, op, st.tuples(st.just("rd"), st.integers(0, 2)).map(list))
         for name in spec["classes"]:
             if values_for(name) is None:
                 continue
